@@ -30,6 +30,10 @@ FORBIDDEN = re.compile(r"\bsorry\b|\badmit\b|^\s*axiom\s|native_decide|bv_decide
 if str(REPO) not in sys.path:
     sys.path.insert(0, str(REPO))
 
+import logging  # noqa: E402
+
+logging.getLogger("src").setLevel(logging.CRITICAL + 10)   # the repo logs swallowed rule failures; C11 reads them through hook H1 instead
+
 
 # --------------------------------------------------------------------------- build / proofs
 
